@@ -4,7 +4,7 @@
 cd "$(dirname "$0")/.."
 tier=${3:-quick}
 for seed in $(seq "$1" "$2"); do
-  for id in C01 C02 C08 C09 C10 C11 C12 C13 C17 C19; do
+  for id in ${SOAK_IDS:-C01 C02 C08 C09 C10 C11 C12 C13 C17 C19}; do
     out=$(VERIF_SEED=$seed VERIF_REPLAY_DIR=/dev/shm/soak-replays ./check $id --tier $tier --no-evidence 2>&1)
     rc=$?
     line=$(echo "$out" | grep "scenarios=" | tail -1)
